@@ -44,9 +44,17 @@ impl Analyzable for ReferenceStep {
 	#[verifier::external_body] fn analyze(self, typer: &mut Typer) -> (r: Self) { unimplemented!() }
 }
 impl Typer {
+	// a callee VERIFIED IN ANOTHER UNIT (U-TYPREF, contracts/u_typref.vc): its contract there (same oracle text, spec/u_typref_spec.rs)
+	// plus the two equations that pin the uninterpreted gtr_type / gtr_ref of spec/u_typst_spec.rs to it
 	#[verifier::external_body]
 	pub fn get_type_of_reference(&self, reference: &mut Reference) -> (r: Option<Poisonable<ValueType>>)
-		ensures r == gtr_type(*old(reference), abs(*self)), *final(reference) == gtr_ref(*old(reference), abs(*self)),
+		requires gtr_pre(*old(reference), self.symbols@, self.structures@),
+		ensures r == type_of_place(*old(reference), self.symbols@, self.structures@),
+			final(reference).base == base_after(*old(reference), self.symbols@, self.structures@),
+			final(reference).steps@.len() == old(reference).steps@.len() && final(reference).address_depth == old(reference).address_depth
+				&& final(reference).location == old(reference).location && final(reference).location_of_unaddressed == old(reference).location_of_unaddressed,
+			r is Some && r->Some_0 is Ok ==> steps_resolved(*old(reference), final(reference).steps@, self.symbols@, self.structures@),
+			r == gtr_type(*old(reference), abs(*self)), *final(reference) == gtr_ref(*old(reference), abs(*self)),
 	{ unimplemented!() }
 	#[verifier::external_body]
 	pub fn analyze_function_arguments(&mut self, identifier: &Identifier, arguments: Vec<Expression>) -> (r: Vec<Expression>)
